@@ -552,10 +552,17 @@ def _conditional_retry(fn, err_target, region, matched_locals):
                 work.append(n_["lhs"]["l"])
             elif how == "rv":
                 work.append(n_["lhs"]["l"])
+    # re-issuing the *same* call: the way back must not advance an iterator / take the next item from a queue
+    # (`for entry in walk { match entry { Err(e) if .. => continue` skips the entry, it does not retry it)
     for bi in region:
         t = fn.blocks[bi]["term"]
-        if t["k"] == "switch" and op_local(t["op"]) in taint and bi != err_target or \
-                (t["k"] == "switch" and op_local(t["op"]) in taint and len(region) > 1):
+        if t["k"] == "call":
+            o = callee_orig(t) or ""
+            if o.endswith(("Iterator::next", "DoubleEndedIterator::next_back", "::recv", "::try_recv", "Iterator::nth")):
+                return False
+    for bi in region:
+        t = fn.blocks[bi]["term"]
+        if t["k"] == "switch" and op_local(t["op"]) in taint:
             return True
     return False
 
@@ -739,6 +746,42 @@ def _is_drop_elab_switch(fn, site):
     return True
 
 
+def _signalled_before(fn, bool_switch_bb, matched_local):
+    """`let failed = r.is_err(); match r { Err(e) => report(e), .. }; if failed { break }`: the value is also matched
+    by discriminant at a switch that dominates the boolean test, and every path from that match's Err arm to the
+    boolean test passes a failure signal."""
+    cfg = cfg_of(fn)
+    du = defuse(fn)
+    ms = {matched_local}
+    grow = [matched_local]
+    while grow:
+        m_ = grow.pop()
+        for site, whole in du.defs.get(m_, []):
+            if not site.is_term and site.node["rv"]["k"] == "ref" and not site.node["rv"]["pl"].get("p"):
+                x_ = site.node["rv"]["pl"]["l"]
+                if x_ not in ms:
+                    ms.add(x_)
+                    grow.append(x_)
+    sig = signal_blocks(fn, ms)
+    for m_ in ms:
+        for site, how in du.uses.get(m_, []):
+            if site.is_term or site.node["rv"]["k"] != "discr" or site.node["rv"]["pl"].get("p"):
+                continue
+            d = site.node["lhs"]["l"]
+            for s2, h2 in du.uses.get(d, []):
+                if not (s2.is_term and h2 == "switch"):
+                    continue
+                if not cfg.set_dominates([s2.bb], bool_switch_bb):
+                    continue
+                et = err_edge_of_switch(s2.node, 1)
+                if et in sig:
+                    return True
+                r = cfg.reach([et], blocked=set(sig))
+                if bool_switch_bb not in r and not any(b in r for b in cfg.returns):
+                    return True
+    return False
+
+
 def _classify_bool(fx, fn, bl, fail_val, via, matched_local):
     """The fallible value was reduced to a bool (is_err/is_ok, `!= 0`): find the switch on it."""
     du = defuse(fn)
@@ -754,6 +797,8 @@ def _classify_bool(fx, fn, bl, fail_val, via, matched_local):
             if site.is_term and how == "switch":
                 tgt = err_edge_of_switch(n, fv)
                 ok, why, wit = check_err_arm(fn, site.bb, tgt, {matched_local})
+                if not ok and _signalled_before(fn, site.bb, matched_local):
+                    ok, why, wit = True, "the failure was already signalled in the Err arm of an earlier match on the same value", None
                 out.append(Classified("MATCHED" if ok else "HANDLED-LOCALLY", via + ": " + why, wit, ok=ok))
             elif not site.is_term and how == "rv":
                 rv = n["rv"]
